@@ -311,6 +311,7 @@ pub struct GreaseStatus<S, B> { s: S, b: B }
 //@attr #[verifier::reject_recursive_types(C)]
 //@attr #[verifier::reject_recursive_types(B)]
 //@ghost-field raised: Ghost<Seq<Offered>>
+//@ghost-field ctrl_taken: Ghost<Seq<FrameTok>>
 //@end
 
 impl<C, B> ConnectionInner<C, B> where C: quic::Connection<B>, B: Buf {
@@ -321,6 +322,7 @@ impl<C, B> ConnectionInner<C, B> where C: quic::Connection<B>, B: Buf {
         &&& self.conn.taken() == o.conn.taken()
         &&& self.conn.opened() == o.conn.opened()
         &&& self.send_grease_frame == o.send_grease_frame
+        &&& self.ctrl_taken == o.ctrl_taken
     }
     // ASSUMED-FROM-UNIT: TODO(C05) ConnectionInner::handle_connection_error — the *first* error offered on a connection is
     // what every caller gets back (DESIGN C05); here only: the offer is logged, nothing else that C08/C09 look at moves.
@@ -340,6 +342,57 @@ impl<C, B> ConnectionInner<C, B> where C: quic::Connection<B>, B: Buf {
         ensures final(self).shared.closing(),
             final(self).control_send == old(self).control_send, final(self).conn == old(self).conn,
             final(self).send_grease_frame == old(self).send_grease_frame, final(self).raised == old(self).raised,
-            final(self).handled_connection_error == old(self).handled_connection_error,
+            final(self).handled_connection_error == old(self).handled_connection_error, final(self).ctrl_taken == old(self).ctrl_taken,
     { unimplemented!() }
+    // ASSUMED-FROM-UNIT: TODO(verusC04) ConnectionInner::poll_control — the next frame from the peer's control stream
+    // (`ctrl_taken` = frames handed to the role-specific driver so far); identifiers in decoded frames are varints (< 2^62)
+    #[verifier::external_body]
+    pub fn poll_control(&mut self, cx: &mut Context<'_>) -> (r: Poll<Result<Frame<PayloadLen>, ConnectionError>>)
+        ensures final(self).shared == old(self).shared, final(self).control_send == old(self).control_send,
+            final(self).conn.taken() == old(self).conn.taken(), final(self).conn.opened() == old(self).conn.opened(),
+            final(self).send_grease_frame == old(self).send_grease_frame,
+            match r {
+                Poll::Ready(Ok(f)) => final(self).ctrl_taken@ == old(self).ctrl_taken@.push(frame_tok(f)) && final(self).raised@ == old(self).raised@
+                    && (f matches Frame::Goaway(v) ==> v.0 < TWO62()),
+                Poll::Ready(Err(_)) => final(self).ctrl_taken@ == old(self).ctrl_taken@,
+                Poll::Pending => final(self).ctrl_taken@ == old(self).ctrl_taken@ && final(self).raised@ == old(self).raised@,
+            },
+    { unimplemented!() }
+
+//@extract h3/src/connection.rs :: impl ConnectionInner<C, B> :: fn poll_accept_bi
+//@tag C08 C06
+//@qconv 1p
+//@kind map_err pollres
+//@ret r
+//@sig
+        ensures final(self).same_but_error(old(self)) || (r matches Poll::Ready(Ok(_))),
+            final(self).shared == old(self).shared, final(self).control_send == old(self).control_send,
+            final(self).send_grease_frame == old(self).send_grease_frame, final(self).conn.opened() == old(self).conn.opened(),
+            match r {
+                Poll::Ready(Ok(s)) => final(self).conn.taken() == old(self).conn.taken().push(Taken { uid: s.uid(), id: s.sid() })
+                    && s.uid() == old(self).conn.taken().len() && s.sid().0 < TWO62()
+                    && s.resets().len() == 0 && s.stops().len() == 0,
+                _ => final(self).conn.taken() == old(self).conn.taken(),
+            },
+//@end
 }
+
+// ---------------------------------------------------------------------------------------------
+impl<S: quic::StreamGhost, B> BufRecvStream<S, B> {
+    pub uninterp spec fn inner(&self) -> S;
+    // h3/src/stream.rs BufRecvStream::new: wraps the stream, empty buffer
+    #[verifier::external_body]
+    pub fn new(stream: S) -> (r: Self) ensures r.inner() == stream { unimplemented!() }
+}
+impl<S: quic::StreamGhost, B> FrameStream<S, B> {
+    pub uninterp spec fn inner(&self) -> S;
+    // h3/src/frame.rs FrameStream::new: wraps the buffered stream, fresh decoder
+    #[verifier::external_body]
+    pub fn new(stream: BufRecvStream<S, B>) -> (r: Self) ensures r.inner() == stream.inner() { unimplemented!() }
+}
+impl<S: quic::SendStream<B>, B: Buf> FrameStream<S, B> {
+    // h3/src/frame.rs: `self.stream.send_id()`
+    #[verifier::external_body]
+    pub fn send_id(&self) -> (r: StreamId) ensures r == self.inner().sid() { unimplemented!() }
+}
+
